@@ -1,17 +1,17 @@
 (* Property C03 - a text is a straight-line program: later lines see the latest binding.
    STATEMENTS ONLY (proofs: Proofs/C03.v).
-   Model functions: Interp.execute_ast (AAssignment stores the value only after the right-hand
-   side evaluated; AVariable reads the value at use time), Base.assoc / assoc_insert (the
-   session's BTreeMap), Parser.parse / parse_assignment / assign_name_loop (name = lower-cased
-   concatenation of the tokens left of '='; a new name is registered at parse time),
-   Rules.find_location / pick_variable (closest-then-longest match), Match.info_eq_token,
-   Api.execute_text and SessionLemmas.eval_lines (a text = the fold of execute_text over its
-   lines, threading the variables).
-   Spec: Spec/Env.v (env = association list, most recent binding first; step / run / latest). *)
+   Model functions: Interp.execute_ast (AAssignment name toks e creates / updates the variable
+   only after e evaluated; AVariable reads the value at use time), Base.assoc / assoc_insert (the
+   session's BTreeMap), Parser.parse / parse_assignment / assign_name_loop (key = lower-cased name
+   tokens joined by one space; the parser never touches the session), Rules.find_location /
+   pick_variable (closest-then-longest match), Match.info_eq_token, Api.execute_text and
+   SessionLemmas.eval_lines (a text = the fold of execute_text over its lines, threading the
+   variables).  Spec: Spec/Env.v (env = association list, most recent binding first; step / run /
+   latest).  `pure` (assignment-free tree) is ParserPure.pure. *)
 From SC.Model Require Import Base Num Types Config Case Match Post Parser Items Interp Rules.
 From SC.Model Require Import Chrono UiTokens Rx RuleFns Format Lexer Api.
 From SC.Spec Require Import Expr Env.
-From SC.Proofs Require Import SessionLemmas C03.
+From SC.Proofs Require Import ParserPure SessionLemmas C03.
 
 (* ---- the session's map: lookup after insert; no sortedness assumption is needed ---- *)
 Theorem C03_assoc_insert_lookup : forall (A : Type) (k k' : str) (v : A) (l : list (str * A)),
@@ -28,65 +28,75 @@ Theorem C03_rhs_reads_values : forall cfg (a : ast F) vs, pure a = true ->
   execute_ast bexec cfg vs a = do r <- eval_pure bexec cfg (var_value vs) a; Ok (r, vs).
 Proof. exact (exec_pure bexec). Qed.
 
-(* ---- `name = e`: the value is stored only after e evaluated; a failing e leaves the session
-   exactly as it was ---- *)
-Theorem C03_assign_exec : forall cfg vs name (e : ast F), pure e = true ->
-  execute_ast bexec cfg vs (AAssignment name e) =
+(* ---- `name = e`: the variable is created / updated only after e evaluated; a failing e leaves
+   the session exactly as it was ---- *)
+Theorem C03_assign_exec : forall cfg vs name toks (e : ast F), pure e = true ->
+  execute_ast bexec cfg vs (AAssignment name toks e) =
   do r <- eval_pure bexec cfg (var_value vs) e;
-  Ok (r, match r with IOk v => store name v vs | IErr _ => vs end).
+  Ok (r, match r with IOk v => store name toks v vs | IErr _ => vs end).
 Proof. exact (exec_assign bexec). Qed.
 
-(* after the line, lookup of the name gives the value; all other names are unchanged *)
-Theorem C03_assign_binds : forall cfg vs name vi (e : ast F) v,
-  pure e = true -> assoc name vs = Some vi ->
-  eval_pure bexec cfg (var_value vs) e = Ok (IOk v) ->
-  exists vs', execute_ast bexec cfg vs (AAssignment name e) = Ok (IOk v, vs') /\
-    assoc name vs' = Some {| v_tokens := v_tokens vi; v_data := v |} /\
+(* after the line, lookup of the name gives the value (a new variable carries the name tokens of
+   the line, an existing one keeps its own); all other names are unchanged *)
+Theorem C03_assign_binds : forall cfg vs name toks (e : ast F) v,
+  pure e = true -> eval_pure bexec cfg (var_value vs) e = Ok (IOk v) ->
+  exists vs', execute_ast bexec cfg vs (AAssignment name toks e) = Ok (IOk v, vs') /\
+    assoc name vs' =
+      Some {| v_tokens := match assoc name vs with Some vi => v_tokens vi | None => toks end;
+              v_data := v |} /\
     (forall k, k <> name -> assoc k vs' = assoc k vs).
 Proof. exact (assign_binds bexec). Qed.
 
-Theorem C03_failed_assignment_preserves_session : forall cfg vs name (e : ast F) m,
+Theorem C03_failed_assignment_preserves_session : forall cfg vs name toks (e : ast F) m,
   pure e = true -> eval_pure bexec cfg (var_value vs) e = Ok (IErr m) ->
-  execute_ast bexec cfg vs (AAssignment name e) = Ok (IErr m, vs).
+  execute_ast bexec cfg vs (AAssignment name toks e) = Ok (IErr m, vs).
 Proof. exact (assign_failed bexec). Qed.
 
 (* every line tree (a use, or an assignment of an assignment-free tree): no name other than the
-   assigned one changes, the interpreter creates and removes no variable, an error changes
-   nothing *)
+   assigned one changes, no variable disappears, an error or a use changes nothing, a successful
+   assignment is exactly [store] *)
 Theorem C03_line_frame : forall cfg vs (a : ast F) r vs',
   line_ast a = true -> execute_ast bexec cfg vs a = Ok (r, vs') ->
   (forall k, assigned a <> Some k -> assoc k vs' = assoc k vs) /\
-  (forall k, assoc_mem k vs' = assoc_mem k vs) /\
+  (forall k, assoc_mem k vs = true -> assoc_mem k vs' = true) /\
   match r with
   | IErr _ => vs' = vs
-  | IOk v => match assigned a with
-             | Some n => vs' = store n v vs
-             | None => vs' = vs
+  | IOk v => match a with
+             | AAssignment n toks _ => vs' = store n toks v vs
+             | _ => vs' = vs
              end
   end.
 Proof. exact (exec_line_frame bexec). Qed.
 
-(* ---- a binding holds a value, not a reference: `y = x` stores the current value of x; no
-   later line that assigns another name (in particular x) changes what y holds ---- *)
-Theorem C03_value_not_reference : forall cfg vs x y vx vy,
-  assoc x vs = Some vx -> assoc y vs = Some vy ->
-  execute_ast bexec cfg vs (AAssignment y (AVariable x)) =
-    Ok (IOk (v_data vx), store y (v_data vx) vs) /\
-  assoc y (store y (v_data vx) vs) = Some {| v_tokens := v_tokens vy; v_data := v_data vx |} /\
+(* ---- a binding holds a value, not a reference: `y = x` stores the current value of x (creating
+   y if need be); no later line that assigns another name (in particular x) changes what y
+   holds ---- *)
+Theorem C03_value_not_reference : forall cfg vs x y ty vx,
+  assoc x vs = Some vx ->
+  execute_ast bexec cfg vs (AAssignment y ty (AVariable x)) =
+    Ok (IOk (v_data vx), store y ty (v_data vx) vs) /\
+  value_of (store y ty (v_data vx) vs) y = Some (v_data vx) /\
   forall (a : ast F) r vs2, line_ast a = true -> assigned a <> Some y ->
-    execute_ast bexec cfg (store y (v_data vx) vs) a = Ok (r, vs2) ->
-    assoc y vs2 = Some {| v_tokens := v_tokens vy; v_data := v_data vx |}.
+    execute_ast bexec cfg (store y ty (v_data vx) vs) a = Ok (r, vs2) ->
+    value_of vs2 y = Some (v_data vx).
 Proof. exact (copy_is_value bexec). Qed.
 
-(* ---- refinement of the reference semantics: for every program of assignment and use lines
-   (registration by the parser, then the interpreter) the results are those of Spec/Env.run,
-   line by line, and every name keeps denoting what the reference environment binds it to ---- *)
+(* ---- refinement of the reference semantics: for every program of assignment and use lines the
+   results are those of Spec/Env.run, line by line, and every name keeps denoting what the
+   reference environment binds it to ---- *)
 Theorem C03_refines : forall cfg p vs en outs vs',
   forallb (fun st => stmt_pure (fst st)) p = true -> Rel vs en ->
   mrun bexec cfg vs p = Ok (outs, vs') ->
   snd (run (spec_eval bexec cfg) spec_value en (map fst p)) = map Ok outs /\
   Rel vs' (fst (run (spec_eval bexec cfg) spec_value en (map fst p))).
 Proof. exact (refines bexec). Qed.
+
+(* the abstraction is exact: a name is a variable of the session iff the reference environment
+   binds it, with the same value (there is no variable without a binding) *)
+Theorem C03_refines_exact : forall cfg vs en st toks x,
+  stmt_pure st = true -> RelDom vs en -> mstep bexec cfg vs (st, toks) = Ok x ->
+  RelDom (snd x) (fst (step (spec_eval bexec cfg) spec_value en st)).
+Proof. exact (step_refines_exact bexec). Qed.
 
 (* later lines see the latest binding: the value of the last assignment that evaluated *)
 Theorem C03_latest_binding : forall cfg p vs en outs vs' n,
@@ -97,17 +107,33 @@ Theorem C03_latest_binding : forall cfg p vs en outs vs' n,
   | Some v => v | None => ANone end.
 Proof. exact (latest_binding bexec). Qed.
 
-(* ---- names of several words: `w1 .. wn = e` (e a C02 expression tree) assigns the key
-   lowercase(w1 .. wn) and registers the name tokens of a new variable ---- *)
+(* ---- names of several words: `w1 .. wn = e` (e a C02 expression tree) is read as the
+   assignment of the key "lower(w1) lower(w2) .. lower(wn)" (one space between the words), the
+   node carries the name tokens, and the session is not touched by the parser ---- *)
 Theorem C03_multiword_assign_parse : forall vs w ws (e : expr F), wf e = true ->
   parse (massign_toks (w :: ws) e) vs =
-  (PAst (AAssignment (name_key (w :: ws)) (ast_of e)),
-   register (name_key (w :: ws)) (name_toks (w :: ws)) vs).
+  (PAst (AAssignment (name_key (w :: ws)) (name_toks (w :: ws)) (ast_of e)), vs).
 Proof. exact multiword_assign_parse. Qed.
 
-(* ---- names are case-insensitive: the key is lower-cased (name_key = to_lowercase of the
-   concatenation), a text token matches a name token in any letter case, and re-casing the
-   words of a line changes nothing in the choice of the variable ---- *)
+Theorem C03_name_key_is_space_joined : forall w ws,
+  name_key (w :: ws) = to_lowercase w ++ flat_map (fun x => 32%N :: to_lowercase x) ws.
+Proof. reflexivity. Qed.
+
+(* ---- distinct names never share a variable: two names (non-empty word lists, no space inside
+   a word) with the same key consist of the same words up to letter case; and conversely the
+   key only depends on the lower-cased words ---- *)
+Theorem C03_distinct_names_distinct_keys : forall w ws w' ws',
+  Forall nosp (w :: ws) -> Forall nosp (w' :: ws') ->
+  name_key (w :: ws) = name_key (w' :: ws') ->
+  map to_lowercase (w :: ws) = map to_lowercase (w' :: ws').
+Proof. exact distinct_names_distinct_keys. Qed.
+
+Theorem C03_name_key_ci : forall ws ws',
+  map to_lowercase ws = map to_lowercase ws' -> name_key ws = name_key ws'.
+Proof. exact name_key_ci. Qed.
+
+(* ---- names are case-insensitive: a text token matches a name token in any letter case, and
+   re-casing the words of a line changes nothing in the choice of the variable ---- *)
 Theorem C03_text_tokens_match_ci : forall (ti : token_info F) a b,
   ti_ty ti = Some (TText a) -> to_lowercase a = to_lowercase b -> info_eq_token ti (TText b) = true.
 Proof. exact text_tokens_match_ci. Qed.
@@ -135,8 +161,7 @@ Theorem C03_longest_name : forall (vs : vars F) tail best r,
 Proof. exact pick_variable_best. Qed.
 
 (* ---- every occurrence of a name is seen: find_location returns Some k iff k is the LEAST index
-   at which the whole name matches, None iff it matches nowhere (soundness + completeness; the
-   former defect `a a b` / name `a b` was fixed in /repo 542d9d0) ---- *)
+   at which the whole name matches, None iff it matches nowhere ---- *)
 Theorem C03_find_location_some_iff : forall (tokens : list (token_info F)) p0 pat k,
   find_location tokens (p0 :: pat) = Ok (Some k) <->
   (occurs_at tokens (p0 :: pat) k /\ forall j, (j < k)%nat -> ~ occurs_at tokens (p0 :: pat) j).
@@ -161,37 +186,45 @@ Theorem C03_find_location_overlap_example :
   find_location [txt "a"; txt "a"; txt "b"] [@TText F (s "a"); TText (s "b")] = Ok (Some 1%nat).
 Proof. exact find_location_overlap_example. Qed.
 
-(* ---- what the parser returns for EVERY token list: an assignment-free tree and the session
-   as it was, or `AAssignment name e`, e assignment-free, and the name registered ---- *)
+(* ---- what the parser returns for EVERY token list: the session as it was, and a line tree (an
+   assignment-free tree, or `AAssignment name toks e` with e assignment-free) ---- *)
 Theorem C03_parse_shape : forall (tokens : list (token F)) vs r vs',
   parse tokens vs = (r, vs') ->
-  (vs' = vs /\ match r with PAst a => pure a = true | _ => True end) \/
-  (exists name toks e, r = PAst (AAssignment name e) /\ pure e = true /\
-                       vs' = register name toks vs).
+  vs' = vs /\ match r with PAst a => line_ast a = true | _ => True end.
 Proof. exact parse_shape. Qed.
 
-(* ---- every line of text (Api.execute_text, all inputs) changes at most one variable ---- *)
+(* ---- every line of text (Api.execute_text, all inputs): the session afterwards is the session
+   before, or the session before with the line's value stored under one name ---- *)
+Theorem C03_line_effect : forall lx ck cfg lang (vs : vars F) line o vs',
+  execute_text lx ck cfg lang vs line = Ok (o, vs') ->
+  vs' = vs \/
+  exists obs out v name toks, o = Some obs /\ lo_result obs = LOk out v /\ vs' = store name toks v vs.
+Proof. exact line_effect. Qed.
+
 Theorem C03_line_changes_one_name : forall lx ck cfg lang (vs : vars F) line o vs',
   execute_text lx ck cfg lang vs line = Ok (o, vs') ->
   exists name, only_differs_at vs vs' name.
 Proof. exact line_changes_one_name. Qed.
 
-(* ---- a line that fails to evaluate leaves all existing bindings unchanged: the session is
-   untouched, or one NEW name was registered holding no value (assignment.rs:58-70 registers
-   at parse time; this is what known finding C03-ghost-variable is about) ---- *)
+(* ---- a line that fails to evaluate leaves the session EXACTLY as it was (all bindings
+   unchanged, no variable created) ---- *)
 Theorem C03_failed_line_preserves_bindings : forall lx ck cfg lang (vs : vars F) line o vs',
-  execute_text lx ck cfg lang vs line = Ok (o, vs') -> line_failed o ->
-  (vs' = vs \/ exists name toks, assoc_mem name vs = false /\
-                 vs' = assoc_insert name {| v_tokens := toks; v_data := ANone |} vs) /\
-  (forall k, assoc_mem k vs = true -> assoc k vs' = assoc k vs).
+  execute_text lx ck cfg lang vs line = Ok (o, vs') -> line_failed o -> vs' = vs.
 Proof. exact failed_line_preserves_bindings. Qed.
 
-(* ... for whole texts: any number of failing lines (execute / execute_session = eval_lines by
-   SessionLemmas.execute_spec / execute_session_spec) *)
+(* ... for whole texts (execute / execute_session = eval_lines by SessionLemmas.execute_spec /
+   execute_session_spec): any number of failing lines *)
 Theorem C03_failed_lines_preserve_bindings : forall lx ck cfg lang lines (vs : vars F) os vs',
-  eval_lines lx ck cfg lang vs lines = Ok (os, vs') -> Forall line_failed os ->
-  forall k, assoc_mem k vs = true -> assoc k vs' = assoc k vs.
+  eval_lines lx ck cfg lang vs lines = Ok (os, vs') -> Forall line_failed os -> vs' = vs.
 Proof. exact failed_lines_preserve_bindings. Qed.
+
+(* ... and a failing line is without effect on the rest of the text: deleting it changes neither
+   the results of the other lines nor the final session *)
+Theorem C03_failed_line_removable : forall lx ck cfg lang l1 l l2 (vs : vars F) os vs',
+  eval_lines lx ck cfg lang vs (l1 ++ l :: l2) = Ok (os, vs') ->
+  (exists o, nth_error os (length l1) = Some o /\ line_failed o) ->
+  eval_lines lx ck cfg lang vs (l1 ++ l2) = Ok (firstn (length l1) os ++ skipn (S (length l1)) os, vs').
+Proof. exact failed_line_removable. Qed.
 
 End WithNum.
 
@@ -207,22 +240,24 @@ Theorem C03_examples :
     = [ok "3"; err "Unknown calculation"; ok "3"; err "No more token"; ok "4"].
 Proof. exact examples. Qed.
 
-(* ---- overlapping occurrences (formerly a known finding) ---- *)
+(* ---- overlapping occurrences (formerly a known finding, fixed in /repo 542d9d0) ---- *)
 Theorem C03_overlap_example :
   outs ["a b = 3"; "foo a b"; "a a b"; "a b c = 5"; "a a b a b c"] = [ok "3"; ok "3"; ok "3"; ok "5"; ok "8"].
 Proof. exact overlap_example. Qed.
 
-(* ---- the two known findings, reproduced by the model ---- *)
+(* ---- formerly known finding C03-ghost-variable: a failing assignment of a new name leaves no
+   variable behind ---- *)
+Theorem C03_ghost_repaired :
+  outs ["a = 2"; "a b = 3 hours * 2 hours"; "a b + 1"] = [ok "2"; err "Unknown calculation"; ok "3"] /\
+  outs ["z = 3 hours * 2 hours"; "z + 1"; "z = 4"; "z + 1"]
+    = [err "Unknown calculation"; ok "1"; ok "4"; ok "5"].
+Proof. exact ghost_repaired. Qed.
 
-Theorem C03_ghost_refuted :
-  outs ["a = 2"; "a b + 1"] = [ok "2"; ok "3"] /\
-  outs ["a = 2"; "a b = 3 hours * 2 hours"; "a b + 1"]
-    = [ok "2"; err "Unknown calculation"; err "Unknown calculation"].
-Proof. exact ghost_refuted. Qed.
-
-Theorem C03_collision_refuted :
-  outs ["ab = 1"; "a b = 2"; "ab"; "a b"] = [ok "1"; ok "2"; ok "2"; err "No more token"].
-Proof. exact collision_refuted. Qed.
+(* ---- formerly known finding C03-name-key-collision: `ab` and `a b` are different variables ---- *)
+Theorem C03_collision_repaired :
+  outs ["ab = 1"; "a b = 2"; "ab"; "a b"] = [ok "1"; ok "2"; ok "1"; ok "2"] /\
+  outs ["a bc = 1"; "ab c = 2"; "a bc + ab c"] = [ok "1"; ok "2"; ok "3"].
+Proof. exact collision_repaired. Qed.
 
 Print Assumptions C03_assoc_insert_lookup.
 Print Assumptions C03_rhs_reads_values.
@@ -232,8 +267,12 @@ Print Assumptions C03_failed_assignment_preserves_session.
 Print Assumptions C03_line_frame.
 Print Assumptions C03_value_not_reference.
 Print Assumptions C03_refines.
+Print Assumptions C03_refines_exact.
 Print Assumptions C03_latest_binding.
 Print Assumptions C03_multiword_assign_parse.
+Print Assumptions C03_name_key_is_space_joined.
+Print Assumptions C03_distinct_names_distinct_keys.
+Print Assumptions C03_name_key_ci.
 Print Assumptions C03_text_tokens_match_ci.
 Print Assumptions C03_definition_case_irrelevant.
 Print Assumptions C03_case_insensitive_use.
@@ -244,10 +283,12 @@ Print Assumptions C03_find_location_complete.
 Print Assumptions C03_find_location_finds.
 Print Assumptions C03_find_location_overlap_example.
 Print Assumptions C03_parse_shape.
+Print Assumptions C03_line_effect.
 Print Assumptions C03_line_changes_one_name.
 Print Assumptions C03_failed_line_preserves_bindings.
 Print Assumptions C03_failed_lines_preserve_bindings.
+Print Assumptions C03_failed_line_removable.
 Print Assumptions C03_examples.
 Print Assumptions C03_overlap_example.
-Print Assumptions C03_ghost_refuted.
-Print Assumptions C03_collision_refuted.
+Print Assumptions C03_ghost_repaired.
+Print Assumptions C03_collision_repaired.
